@@ -892,3 +892,59 @@ func (tb *TB) IndexOffsets(body, v *Term) []*Term {
 	rec(body)
 	return out
 }
+
+// DropQuantifiers replaces every quantified subformula by true (positive positions only make sense for
+// hypotheses: used to obtain the ground part of a path condition for reachability checks).
+func (tb *TB) DropQuantifiers(t *Term) *Term {
+	memo := map[int]*Term{}
+	var rec func(t *Term) *Term
+	rec = func(t *Term) *Term {
+		if t.op == "forall" {
+			return tb.True()
+		}
+		if len(t.args) == 0 || t.sort.K != KBool {
+			return t
+		}
+		if m, ok := memo[t.id]; ok {
+			return m
+		}
+		var res *Term
+		switch t.op {
+		case "and":
+			var as []*Term
+			for _, a := range t.args {
+				as = append(as, rec(a))
+			}
+			res = tb.And(as...)
+		case "or", "=>", "not", "ite", "=":
+			// a quantifier under these: drop the whole subformula (weakening a hypothesis is sound for a cover)
+			has := false
+			var scan func(x *Term)
+			seen := map[int]bool{}
+			scan = func(x *Term) {
+				if has || seen[x.id] {
+					return
+				}
+				seen[x.id] = true
+				if x.op == "forall" {
+					has = true
+					return
+				}
+				for _, a := range x.args {
+					scan(a)
+				}
+			}
+			scan(t)
+			if has {
+				res = tb.True()
+			} else {
+				res = t
+			}
+		default:
+			res = t
+		}
+		memo[t.id] = res
+		return res
+	}
+	return rec(t)
+}
